@@ -22,10 +22,17 @@ vars == <<l, s, pend, seg>>
 
 (* pend: client -> [call, done]  for calls invoked and not yet returned *)
 NoPend == <<>>
+PReg(i) == 100000 + i
+(* RELAX=1 (second run, for crash probes): replies of read-only calls are not checked and do not move the state -    *)
+(* the property promises that calls that RETURNED survive a crash and that a call in flight applies entirely or not  *)
+(* at all, not that what a reader saw from a call still in flight survives.                                          *)
+Relax == "RELAX" \in DOMAIN IOEnv /\ IOEnv.RELAX = "1"
+IsRead(c) == c.proc \in {"NULL", "GETATTR", "LOOKUP", "ACCESS", "READLINK", "READ", "READDIR", "READDIRPLUS", "FSSTAT", "FSINFO", "PATHCONF"}
 
 LInit == /\ l = 1 /\ s = InitState("", TRUE) /\ pend = NoPend /\ seg = -1
          /\ TLCSet(999, -1)
          /\ \A i \in 1..N : Trace[i].ev = "reset" => TLCSet(1000 + Trace[i].seg, 0)
+         /\ \A i \in 1..N : Trace[i].ev = "crashprobe" => TLCSet(PReg(i), 0)
 
 IsReset(i) == i <= N /\ Trace[i].ev = "reset"
 
@@ -51,8 +58,8 @@ Inv ==
 
 Lin(c) ==
   /\ c \in DOMAIN pend /\ ~pend[c].done
-  /\ Check(s, pend[c].call) = <<>>
-  /\ s' = Next(s, pend[c].call)
+  /\ IF Relax /\ IsRead(pend[c].call) THEN s' = s
+     ELSE Check(s, pend[c].call) = <<>> /\ s' = Next(s, pend[c].call)
   /\ pend' = [pend EXCEPT ![c].done = TRUE]
   /\ UNCHANGED <<l, seg>>
 
@@ -76,6 +83,15 @@ Final ==   \* dump / snap lines at the end of a history: all calls returned, tre
   /\ l' = l + 1 /\ UNCHANGED <<s, pend, seg>>
   /\ Mark(l + 1)
 
+(* A crash image cut after the history events consumed so far: the recovered tree must be the tree of SOME state    *)
+(* reachable here (calls that returned are in it; a call in flight is in it entirely or not at all). The line is    *)
+(* consumed on every path; a path whose state matches sets the probe's register; Post prints unmatched probes.      *)
+CrashProbe ==
+  /\ l <= N /\ Trace[l].ev = "crashprobe"
+  /\ (IF Trace[l].ok /\ DumpMatches(s.objs, Trace[l].dump) THEN TLCSet(PReg(l), 1) ELSE TRUE)
+  /\ l' = l + 1 /\ UNCHANGED <<s, pend, seg>>
+  /\ Mark(l + 1)
+
 Restart ==  \* clean restart during the sequential set-up (everything so far was acknowledged stable)
   /\ l <= N /\ Trace[l].ev = "restart" /\ DOMAIN pend = {}
   /\ s' = AfterRecovery(s, s.objs) /\ l' = l + 1 /\ UNCHANGED <<pend, seg>>
@@ -85,11 +101,12 @@ Skip ==    \* abandon this history
   /\ l <= N /\ ~IsReset(l) /\ seg >= 0
   /\ l' = NextReset(l) /\ s' = InitState("", TRUE) /\ pend' = NoPend /\ seg' = -2
 
-LNext == DoReset \/ Inv \/ Ret \/ Final \/ Restart \/ Skip \/ \E c \in DOMAIN pend : Lin(c)
+LNext == DoReset \/ Inv \/ Ret \/ Final \/ CrashProbe \/ Restart \/ Skip \/ \E c \in DOMAIN pend : Lin(c)
 LSpec == LInit /\ [][LNext]_vars
 
 (* one line per history: the furthest line reached *)
 Post == /\ PrintT("LINES " \o ToString(N))
         /\ \A i \in 1..N : Trace[i].ev = "reset" =>
                PrintT("HW " \o ToString(Trace[i].seg) \o " " \o ToString(i) \o " " \o ToString(TLCGet(1000 + Trace[i].seg)))
+        /\ \A i \in 1..N : (Trace[i].ev = "crashprobe" /\ TLCGet(PReg(i)) = 0) => PrintT("UNMATCHED " \o ToString(i))
 =============================================================================
